@@ -138,7 +138,7 @@ func (e *env) checkJSONText(text, class string, specSame bool, taint []string) {
 		c.Add("json_texts_rejected_by_jsonio", 1)
 		return
 	}
-	w := witness{Kind: "json", Text: text, Class: class}
+	w := witness{Kind: "json", Text: text, Class: class, SpecTaint: taint}
 	same := zerr == nil && len(jvals) == len(zvals)
 	if same {
 		for i := range jvals {
@@ -172,7 +172,12 @@ func (e *env) checkJSONText(text, class string, specSame bool, taint []string) {
 		}
 		c.Violate(sig(), what, w)
 	}
-	if class == "" {
+	dupkey := false
+	for _, t := range taint {
+		dupkey = dupkey || t == "dupkey"
+	}
+	// with two members of one name the outcome depends on whether their (opaque, to the spec) values differ
+	if class == "" && !dupkey {
 		if same != specSame {
 			c.Drift("json: `%s`: spec says same=%v (taint %v), real same=%v", strings.TrimSpace(text), specSame, taint, same)
 		} else {
